@@ -25,7 +25,7 @@ func init() {
 		ID:    "C13",
 		Level: "model_checking",
 		Rule: "pool of " + fmt.Sprint(len(pool)) + " configurations that present equal pattern-cache keys for different things (a word list / a regex target key / a ctl target regex / a REST path / a relevant-status pattern all spelled `foo`; data set `d` with two different contents and a word list spelled `d`; file list.txt under two root file systems with different contents; @rx with prefilter on and off; @validateNid); " +
-			"breadth-first search over all histories of build(i) / close(i) operations up to depth 3 (quick) / 5 (thorough); after every operation every live WAF is probed with 5 requests; " +
+			"breadth-first search over all histories of build(i) / close(i) operations up to depth 3 (quick); thorough: depth 4 over the whole pool and depth 5 over every two configurations; after every operation every live WAF is probed with 11 requests; " +
 			"oracle: each probe equals the probe of the same configuration built alone in a pristine process, and the table of stand-alone probes equals the table produced by a second harness binary built with -tags coraza.no_memoize; NewWAF must never fail or panic because of history",
 		Assumptions: []string{
 			"a history is the state (no merging of histories: the cache content is not observable through the public API), so states = histories explored",
@@ -311,6 +311,16 @@ func run(c *runner.Ctx) {
 		}
 		if len(h) >= 1 && !c.Mine(h[0]) {
 			return fmt.Sprint(h), false
+		}
+		if len(h) > 4 {
+			// thorough: every history of 4 operations over the whole pool, and the histories of 5 over any two configurations
+			seen := map[int]bool{}
+			for _, op := range h {
+				seen[op%len(pool)] = true
+			}
+			if len(seen) > 2 {
+				return fmt.Sprint(h), false
+			}
 		}
 		stopWatch := c.Watch("build-close-history", kase{Hist: append([]int{}, h...)}, 2*time.Minute)
 		defer stopWatch()
